@@ -165,7 +165,7 @@ def exact_matrix_part(rep, tier, tags):
     conformance: every exported argument vector is executed and Trace_Segno re-runs the machine on the observation."""
     import json
     cfg = 'Segno_q5.cfg' if tier == 'quick' else 'Segno_thorough.cfg'
-    out, st = common.run_tlc('MC_Segno', cfg=cfg, workers=common.NCPU, timeout=3000, xmx='12g', coverage=True)
+    out, st = common.run_tlc('MC_Segno', cfg=cfg, workers=common.NCPU, timeout=3000, xmx='12g')
     rep.add_design('MC_Segno', cfg, out, st, 'pipeline state machine on all contents of length <= 2 over a class-boundary alphabet: invariants C01_RoundTrip, '
                    'C02_Geometry, C03_Blocks, C06_Mask, C07_ModeInSymbol, C13_Tail, Dev_Recognised (reference decoder applied to the reference encoder)')
     vecs = common.parse_vectors(out)
